@@ -63,7 +63,7 @@ Lemma sel_phase_q c s :
   end.
 Proof.
   assert (NC : forall s0, match no_candidate c s0 with SSent _ _ _ => False | SDone r evs => r = RPseudo \/ r = RError end).
-  { intros s0. unfold no_candidate. destruct (any_pending s0); auto. destruct (backoff c BoBusy s0) as [[? ?]|]; auto. }
+  { intros s0. unfold no_candidate. destruct (any_pending s0); auto. destruct (backoff c BoBusy s0) as [? ?| |?]; auto. }
   assert (NC' : forall s0, match no_candidate c s0 with
      | SSent s' t evs => q_retry s' = q_retry s /\ (c_read c = false -> c_stale c = false -> q_rr s = false -> q_stale s = false -> q_rr s' = false /\ q_stale s' = false)
      | SDone r evs => r = RPseudo \/ r = RError end).
@@ -76,7 +76,7 @@ Proof.
   set (s1 := set_proxy None (set_sel_attempts (sat3 (S (sel_attempts s0))) s0)).
   destruct (if rt_eqb (rt s1) RTLeader && c_fw c then proxy_next s1 else PxLeaderOnly) as [|p|]; [| |apply NC'].
   2: { destruct (stale _ || stale _); [apply NC'|]. destruct (pending _).
-       - destruct (backoff c BoBusy _) as [[s4 e]|] eqn:B; [|auto].
+       - destruct (backoff c BoBusy _) as [s4 e| |e] eqn:B; [|auto|auto].
          apply backoff_frame in B as (_ & B1 & B2 & B3 & _). cbn in B1, B2, B3. split; [congruence|]. intros. split; congruence.
        - cbn. split; [congruence|]. intros. split; congruence. }
   destruct (if rt_eqb (rt s1) RTLeader then next_leader c s1 else next_mixed c s1) as [tg s2] eqn:N.
@@ -89,7 +89,7 @@ Proof.
   destruct tg as [t|]; [|apply NC'].
   destruct (stale (rep_at s2 t)); [apply NC'|].
   destruct (pending _).
-  - destruct (backoff c BoBusy _) as [[s4 e]|] eqn:B; [|auto].
+  - destruct (backoff c BoBusy _) as [s4 e| |e] eqn:B; [|auto|auto].
     apply backoff_frame in B as (_ & B1 & B2 & B3 & _). cbn in B1, B2, B3. split; [congruence|].
     intros R ST X Y. destruct (Q2 R ST X Y t eq_refl). split; congruence.
   - cbn. split; [assumption|]. intros R ST X Y. apply (Q2 R ST X Y t eq_refl).
@@ -105,7 +105,7 @@ Lemma handle_q c s t o i :
   end.
 Proof.
   destruct o; cbn [handle]; unfold on_send_fail, on_busy, on_not_leader_hint, with_backoff; cbv zeta; auto;
-    ifs; auto; try (destruct (backoff _ _ _) as [[s' e]|] eqn:B; [apply backoff_frame in B as (_ & B1 & B2 & B3 & _); cbn in B1, B2, B3|]);
+    ifs; auto; try (destruct (backoff _ _ _) as [s' e| |e] eqn:B; [apply backoff_frame in B as (_ & B1 & B2 & B3 & _); cbn in B1, B2, B3| |]);
     auto; repeat split; auto; try congruence.
 Qed.
 
@@ -120,8 +120,8 @@ Proof.
   intros R ST. induction script as [|o rest IH]; intros s prev i X Y; rewrite loop_unfold;
     pose proof (pre_spec fixed c s prev i) as P;
     assert (P' : match pre fixed c s prev i with HRetry s' _ => q_stale s' = q_stale s /\ (q_rr s = false -> q_rr s' = false) | HDone _ _ => True end)
-      by (unfold pre; destruct prev as [[t o']|]; [pose proof (handle_q c s t o' (pred i)) as HQ; destruct (handle fixed c s t o' (pred i)); tauto | auto]);
-    destruct (pre fixed c s prev i) as [s1 evs1|r evs1]; try (subst evs1; constructor); destruct P as [_ P2]; destruct P' as [P3 P4]; cbv zeta;
+      by (unfold pre; destruct (c_interruptible c && killed s && _); [exact I|]; destruct prev as [[t o']|]; [pose proof (handle_q c s t o' (pred i)) as HQ; destruct (handle fixed c s t o' (pred i)); tauto | auto]);
+    destruct (pre fixed c s prev i) as [s1 evs1|r evs1]; try (destruct P as [P0 _]; cbn [fst]; now apply att_all_noatt); destruct P as [_ P2]; destruct P' as [P3 P4]; cbv zeta;
     set (s1' := if 0 <? i then set_q_retry true s1 else s1);
     assert (X1 : q_rr s1' = false /\ q_stale s1' = false) by (subst s1'; destruct (0 <? i); cbn; split; auto; congruence);
     pose proof (sel_phase_spec c s1') as Q; pose proof (sel_phase_q c s1') as Q'; destruct (sel_phase c s1') as [s2 t evs2|r evs2].
@@ -130,12 +130,12 @@ Proof.
   - cbn [fst]. apply att_all_app; [now apply att_all_noatt|]. apply att_all_app; [now apply att_all_noatt|].
     apply att_all_cons; [auto|constructor].
   - destruct (after_send_q s2 t) as (A1 & A2 & _).
-    specialize (IH (after_send s2 t) (Some (t, o)) (S i) ltac:(congruence) ltac:(congruence)).
+    specialize (IH (raise_att c i (after_send s2 t)) (Some (t, if dead s2 then ORpcErr Reachable else o)) (S i) ltac:(change (q_rr (after_send s2 t) = false); congruence) ltac:(change (q_stale (after_send s2 t) = false); congruence)).
     assert (G : forall evs, att_all (fun rr st _ => rr = false /\ st = false) evs ->
                 att_all (fun rr st _ => rr = false /\ st = false) (evs1 ++ evs2 ++ EAtt t (q_rr s2) (q_stale s2) (q_retry s2) :: evs)).
     { intros evs HE. apply att_all_app; [now apply att_all_noatt|]. apply att_all_app; [now apply att_all_noatt|]. apply att_all_cons; auto. }
     destruct o; try (cbn [fst]; apply G; constructor);
-      destruct (loop_gen fixed c rest (after_send s2 t) _ (S i)) as [evs r]; cbn [fst] in *; apply G; assumption.
+      destruct (loop_gen fixed c rest (raise_att c i (after_send s2 t)) _ (S i)) as [evs r]; cbn [fst] in *; apply G; assumption.
 Qed.
 
 (* every re-send carries the retry marker *)
@@ -145,8 +145,8 @@ Proof.
   induction script as [|o rest IH]; intros s prev i Hi; rewrite loop_unfold;
     pose proof (pre_spec fixed c s prev i) as P;
     assert (P' : match pre fixed c s prev i with HRetry s' _ => q_retry s' = q_retry s | HDone _ _ => True end)
-      by (unfold pre; destruct prev as [[t o']|]; [pose proof (handle_q c s t o' (pred i)) as HQ; destruct (handle fixed c s t o' (pred i)); tauto | auto]);
-    destruct (pre fixed c s prev i) as [s1 evs1|r evs1]; try (subst evs1; constructor); destruct P as [_ P2]; cbv zeta;
+      by (unfold pre; destruct (c_interruptible c && killed s && _); [exact I|]; destruct prev as [[t o']|]; [pose proof (handle_q c s t o' (pred i)) as HQ; destruct (handle fixed c s t o' (pred i)); tauto | auto]);
+    destruct (pre fixed c s prev i) as [s1 evs1|r evs1]; try (destruct P as [P0 _]; cbn [fst]; now apply att_all_noatt); destruct P as [_ P2]; cbv zeta;
     set (s1' := if 0 <? i then set_q_retry true s1 else s1);
     assert (X1 : q_retry s1' = true)
       by (subst s1'; destruct (0 <? i) eqn:E; cbn; auto; destruct Hi as [Hi|Hi]; [apply Nat.ltb_lt in Hi; congruence|congruence]);
@@ -155,12 +155,12 @@ Proof.
   all: destruct Q as (_ & Q2 & _); destruct Q' as [Q' _].
   - cbn [fst]. apply att_all_app; [now apply att_all_noatt|]. apply att_all_app; [now apply att_all_noatt|].
     apply att_all_cons; [congruence|constructor].
-  - specialize (IH (after_send s2 t) (Some (t, o)) (S i) ltac:(left; lia)).
+  - specialize (IH (raise_att c i (after_send s2 t)) (Some (t, if dead s2 then ORpcErr Reachable else o)) (S i) ltac:(left; lia)).
     assert (G : forall evs, att_all (fun _ _ rty => rty = true) evs ->
                 att_all (fun _ _ rty => rty = true) (evs1 ++ evs2 ++ EAtt t (q_rr s2) (q_stale s2) (q_retry s2) :: evs)).
     { intros evs HE. apply att_all_app; [now apply att_all_noatt|]. apply att_all_app; [now apply att_all_noatt|]. apply att_all_cons; auto. congruence. }
     destruct o; try (cbn [fst]; apply G; constructor);
-      destruct (loop_gen fixed c rest (after_send s2 t) _ (S i)) as [evs r]; cbn [fst] in *; apply G; assumption.
+      destruct (loop_gen fixed c rest (raise_att c i (after_send s2 t)) _ (S i)) as [evs r]; cbn [fst] in *; apply G; assumption.
 Qed.
 
 End Gen.
